@@ -596,6 +596,8 @@ class World:
                     return base.replace(**{rule[1]: rule[2]})
                 if kind == "fresh":
                     return w.build(rule[1], create_detached=True)
+                if kind == "existing":
+                    return w.node_at(rule[1])  # a pre-existing node of the user's (e.g. a definition looked up elsewhere)
                 if kind == "bad":
                     return w.build(rule[1])  # an attached (parentless) fresh tree: fine; used by C19 with wrong types
                 raise HarnessError(str(rule))
@@ -1254,7 +1256,8 @@ class Gen:
             names = [h for h, x in self.w.handles.items() if x.detached and id(x) not in self.w.positions()]
             ref = {"h": r.choice(names), "path": []} if names else None
         else:
-            ref = self.pick_ref(lambda o: not o.detached, root_bias=0.5)
+            want_kids = r.random() < 0.5
+            ref = self.pick_ref(lambda o: not o.detached and (not want_kids or bool(children_of(o))), root_bias=0.5)
         bad = self.attached_subtree_ref()
         if ref is None or bad is None:
             return None
@@ -1265,10 +1268,17 @@ class Gen:
         if o.parent is not None and o.parent_field.name == "only_leaf":
             return None
         kids = self.fresh_children(r.choice([0, 1, 2]))
+        shared = ""
+        own = children_of(o)
+        if own and r.random() < 0.7:
+            # the replacement re-uses (some of) the receiver's own children: Group(kids=(*old.kids, extra))
+            take = own[: r.choice([1, len(own)])]
+            kids = [{"ref": {"h": ref["h"], "path": list(ref.get("path", [])) + [[f, i]]}} for f, i, _c in take] + kids
+            shared = "_shares_children"
         kids.insert(r.randint(0, len(kids)), {"ref": bad})
         new = {"c": "LInner", "p": {"tag": "rwa"}, "ch": {"items": kids}, "o": "no", "create_detached": True}
         state = "detached" if o.detached else "attached"
-        return {"act": "replace_with", "n": ref, "new": new, "bad": f"replace_with_attach_fails_{state}_receiver"}
+        return {"act": "replace_with", "n": ref, "new": new, "bad": f"replace_with_attach_fails_{state}_receiver{shared}"}
 
     def rj_replace_with_own_ancestor(self) -> dict[str, Any] | None:
         """child.replace_with(its own attached root ancestor): pre-checks pass, attaching the replacement fails
@@ -1348,7 +1358,12 @@ class Gen:
         o = self.w.node_at(ref)
         if len(walk(o)) > 8:
             return None
-        if o.parent_field.name == "only_leaf":
+        fr = self.free_ref(detached=False)
+        if o.parent_field.name == "only_leaf" and fr is not None and r.random() < 0.5 and cname(self.w.node_at(fr)) != "LLeaf" and not any(x is o for x in walk(self.w.node_at(fr))):
+            # the visitor hands back a pre-existing ATTACHED root, which the final replace_with refuses
+            rules = {cname(o): ["existing", fr]}
+            bad = "transform_result_existing_root_wrong_type"
+        elif o.parent_field.name == "only_leaf":
             rules = {cname(o): ["fresh", {"c": "LLeafB", "p": {"v": "w"}, "ch": {}, "o": "no"}]}
             bad = "transform_result_wrong_type"
         else:
